@@ -108,6 +108,42 @@ def synthetic_inputs(tier, work, which):
     return out
 
 
+def invalid_inputs(tier, work):
+    """Inputs with a transcript whose variant series cannot be loaded (callVariant counts it as invalid under --skip-failed and
+    raises otherwise): an isoform without the first / last exon of its gene and a record that names it at a gene position inside
+    the missing exon.  The invalid transcript is the last one in annotation order, or one in the middle."""
+    from vlib import refgen, cvgen
+    r = env.rng('callrun-invalid')
+    out = []
+    for name, where in (('invalid_last', 2), ('invalid_mid', 1)):
+        for _ in range(50):
+            b = refgen.Builder(r)
+            for k in range(3):
+                seq, cs, ce, secs, prot = refgen.make_coding_tx_seq(r, r.randrange(24, 34), r.randrange(3, 10), r.randrange(6, 16))
+                b.add_gene(seq, r.choice([1, -1]), 3, True, cs, ce, secs, (), prot, isoforms=1 if k == where else 0, iso_terminal=(k == where))
+            ref = b.finish()
+            iso = [t for t in ref.txs.values() if not t.coding]
+            if len(iso) == 1 and all(len(t.exons) == 3 for t in ref.txs.values() if t.coding):
+                break
+        iso = iso[0]
+        g = ref.genes[iso.gene]
+        main = next(t for t in ref.txs.values() if t.gene == iso.gene and t.coding)
+        gone = next(e for e in main.exons if e not in iso.exons)
+        d = os.path.join(work, f'synth_{name}'); os.makedirs(d, exist_ok=True)
+        paths = ref.write(d)
+        small = []
+        for t in ref.txs.values():
+            if t.coding:
+                small += cvgen.random_small_variants(r, ref, t, 3, kinds=('SNV',))
+        x = (gone[0] + gone[1]) // 2
+        gp = g.g2gene(x); base = g.seq(ref.chroms['chr1'])[gp]; alt = 'A' if base != 'A' else 'C'
+        small.append(dict(tx=iso.id, gene=iso.gene, gstart=gp, ref=base, alt=alt, id=f'SNV-{gp + 1}-{base}-{alt}'))
+        f1 = os.path.join(d, 'small.gvf'); cvgen.write_gvf(f1, small)
+        out.append(dict(name=f'synth_{name}', gvfs=[], light=True, opts=dict(min_length=4, miscleavage='1', min_mw='0.00005'),
+                        ref=paths, files=[f1], invalid_expected=True))
+    return out
+
+
 def job_for(inp, outdir, threads=1, skip_failed=False, fail=None, files=None, ref=None, prep=None,
             extra=None):
     a = dict(ref or inp['ref'])
@@ -126,12 +162,16 @@ def uid(tx, kind, unit):
 def analyse_baseline(res):
     """From a threads=1 traced run: transcript order, skip set, units per tx, peptides per unit."""
     evs = res['parent']
-    order, skipped = [], []
+    order, skipped, invalid = [], [], []
     units, pep, kind = {}, {}, {}
+    ninv = 0
     for e in evs:
         if e['event'] == 'gather':
             order.append(e['tx'])
-            if not e['dispatched']:
+            if e.get('n_invalid', 0) > ninv:
+                # the variant series of this transcript could not be loaded (--skip-failed run)
+                ninv = e['n_invalid']; invalid.append(e['tx'])
+            elif not e['dispatched']:
                 skipped.append(e['tx'])
         elif e['event'] in ('unit_ok', 'unit_fail'):
             u = uid(e['tx'], e['kind'], e['unit'])
@@ -142,7 +182,7 @@ def analyse_baseline(res):
             if e['event'] == 'unit_ok':
                 pep[u] = e['peptides']
     table = next((e['table'] for e in evs if e['event'] == 'finish'), None)
-    return dict(order=order, skipped=skipped, units=units, pep=pep, kind=kind, table=table)
+    return dict(order=order, skipped=skipped, invalid=invalid, units=units, pep=pep, kind=kind, table=table)
 
 
 def fail_name(u):
@@ -153,7 +193,7 @@ def fail_name(u):
 def build_model(inp, rep, workdir):
     """Reference runs that establish the configuration record for an input."""
     d0 = os.path.join(workdir, inp['name'] + '_b0'); os.makedirs(d0, exist_ok=True)
-    r0 = jobs.run_job('run_cv_case.py', job_for(inp, d0))
+    r0 = jobs.run_job('run_cv_case.py', job_for(inp, d0, skip_failed=bool(inp.get('invalid_expected'))))
     if not r0.get('ok'):
         rep.machinery(f"baseline run failed for {inp['name']}: {r0.get('error')} {r0.get('stderr', '')[-300:]}")
         return None
@@ -180,7 +220,8 @@ def build_model(inp, rep, workdir):
     kord = {'main': 0, 'fusion': 1, 'circRNA': 2}
     units = [sorted(b0['units'].get(tx, []), key=lambda u: (kord[b0['kind'][u]], u)) for tx in order]
     model = dict(ntx=len(order), order=order, idx=idx, units=units, kind=b0['kind'], pep=pep,
-                 valid=sorted(valid), skip=[idx[t] for t in b0['skipped']], base_table=sorted(b0['table']),
+                 valid=sorted(valid), skip=[idx[t] for t in b0['skipped']], invalid=[idx[t] for t in b0['invalid']],
+                 base_table=sorted(b0['table']),
                  base_parent=r0['parent'])
     return model
 
@@ -211,7 +252,7 @@ def run_record(model, res, threads, skip_failed, failing, label):
     return dict(label=label, ntx=model['ntx'], threads=threads, skipFailed=skip_failed,
                 units=model['units'], kind=model['kind'],
                 pep={u: model['pep'].get(u, []) for u in model['kind']},
-                valid=model['valid'], skip=model['skip'], invalid=[], failing=sorted(failing),
+                valid=model['valid'], skip=model['skip'], invalid=model.get('invalid', []), failing=sorted(failing),
                 events=evs, error=res.get('error'))
 
 
@@ -540,6 +581,7 @@ def check_c07(tier):
     inputs = demo_inputs(tier)
     inputs = [i for i in inputs if i['name'] in ('demo6', 'demo5_nct', 'snp_circ_nct', 'demo5', 'demo6_sect')]
     inputs += synthetic_inputs(tier, work, 'C07')
+    inputs += invalid_inputs(tier, work)
     for inp in inputs:
         m = build_model(inp, rep, work)
         if m is None:
